@@ -26,7 +26,8 @@ type RefResult struct {
 
 	// out-of-statement situations (counted and skipped by C03, owned by C07)
 	Underflow   bool // Pop/Return with nothing to return to
-	NonPart     bool // a pushing rule's group did not participate and is later back-referenced / sliced
+	NonPart     bool // a back-reference named a group of the entering rule that did not take part in its match
+	NonPartSeen int  // entering rules with a group that did not take part in the match
 	Inexpress   bool // back-referenced text is not expressible as a regexp (invalid UTF-8)
 	StatesSeen  int
 	MultiCand   int // offsets at which >= 2 rules matched
@@ -45,6 +46,7 @@ type RefResult struct {
 type frame struct {
 	state  string
 	groups []string
+	absent []bool // groups of the entering rule that did not take part in its match
 }
 
 var backrefRE = regexp.MustCompile(`\\(\d)`)
@@ -154,6 +156,11 @@ func RefLexTried(rs *RuleSet, in string, tried func(off int, r RuleSpec, pattern
 						ok = false
 						return s
 					}
+					if n < len(top.absent) && top.absent[n] && sel == nil {
+						// the entering rule has the group but it did not take part in the match: whether that is
+						// "a group the entering rule did not capture" is not settled by the statement
+						res.NonPart = true
+					}
 					if sel == nil {
 						res.Backrefs++
 						if regexp.QuoteMeta(top.groups[n]) != top.groups[n] {
@@ -231,26 +238,24 @@ func RefLexTried(rs *RuleSet, in string, tried func(off int, r RuleSpec, pattern
 		switch sel.Action {
 		case "push":
 			groups := make([]string, 0, len(m)/2)
+			absent := make([]bool, 0, len(m)/2)
 			for i := 0; i < len(m); i += 2 {
 				if m[i] < 0 {
 					groups = append(groups, "")
-					res.NonPart = true
+					absent = append(absent, true)
+					res.NonPartSeen++
 				} else {
 					groups = append(groups, rest[m[i]:m[i+1]])
+					absent = append(absent, false)
 				}
 			}
-			stack = append(stack, frame{state: sel.Target, groups: groups})
+			stack = append(stack, frame{state: sel.Target, groups: groups, absent: absent})
 			seen[sel.Target] = true
 			res.Pushes++
 			if len(stack) > res.MaxDepth {
 				res.MaxDepth = len(stack)
 			}
 		case "pop":
-			for i := 0; i < len(m); i += 2 {
-				if m[i] < 0 {
-					res.NonPart = true
-				}
-			}
 			if len(stack) == 1 {
 				res.Underflow = true
 				return res
